@@ -48,7 +48,7 @@ Definition mfnd_spec_statement : Prop :=
 (* ---- extended filtration vocabulary (Q) *)
 Definition ext_min (K : qcplx) : Q := ext_minval (vertex_values K).
 Definition ext_max (K : qcplx) : Q := ext_maxval (vertex_values K).
-Definition ext_cone_point (vmin : Z) (K : qcplx) : Z := (ext_maxvert vmin (vertex_values K) + 1)%Z.
+Definition ext_cone_point (vmin : Z) (K : qcplx) : Z := cone_point_of (ext_maxvert vmin (vertex_values K)).
 (* value of an original vertex value v on the ascending part [-2,-1] / on the descending part [1,2] *)
 Definition enc_up (K : qcplx) (v : Q) : Q := -(2#1) + (v - ext_min K) * ext_scale (ext_min K) (ext_max K).
 Definition enc_down (K : qcplx) (v : Q) : Q := (2#1) - (v - ext_min K) * ext_scale (ext_min K) (ext_max K).
